@@ -275,13 +275,17 @@ theorem inv_apply (h : Inv d acked low) (op : Op) (g : Guard d low op) : Inv (ap
   | walRemove id => exact inv_walRemove h id g
   | tableRemove n => exact inv_tableRemove h n g
 
-/-- a commit is acknowledged only after its batch is in the synced part of a wal -/
-theorem inv_ack (h : Inv d acked low) (b : List E) (g : ∀ e ∈ b, e ∈ syncedRecs d) : Inv d (acked ++ b) low := by
+/-- a commit is acknowledged only after its batch is in the synced part of a wal
+    (or, when a fast flusher got there first, already in a published table) -/
+theorem inv_ack (h : Inv d acked low) (b : List E) (g : ∀ e ∈ b, e ∈ syncedRecs d ∨ e ∈ tableEnts d) :
+    Inv d (acked ++ b) low := by
   refine ⟨?_, h.order, h.synced_le, h.table_synced⟩
   intro e he
   rcases List.mem_append.mp he with he | he
   · exact h.durable e he
-  · exact Or.inl (g e he)
+  · rcases g e he with h1 | h1
+    · exact Or.inl h1
+    · exact Or.inr (Or.inl h1)
 
 /-- the discard watermark only goes up -/
 theorem inv_low (h : Inv d acked low) (low' : Nat) (hl : low ≤ low') : Inv d acked low' := by
